@@ -337,6 +337,22 @@ def run(tier, seed, proof):
             break
     res.extra["operations_compared"] = nops
     res.extra["op_distribution"] = kinds
+    # "registering or unregistering a timer never changes whether or when another timer fires" at the level of the running loop (the
+    # store above is only half of it: the loop turns the earliest expiry into a poll timeout or an armed timer descriptor): C04's
+    # scenario families and monitor (never early, once, never late) are run as part of this check
+    if not res.impl_violations and not res.divergences:
+        from . import c04
+        sub = c04.run(tier, seed, proof)
+        res.evaluations += sub.evaluations
+        res.nontrivial |= set("loop-" + x for x in sub.nontrivial)
+        for sig, msg, pth in sub.impl_violations:
+            if pth and os.path.isfile(pth):
+                txt = open(pth).read()
+                open(pth, "w").write("# loop-level case (replayed by vlib/c04.py)\n" + txt)
+            res.impl_violations.append(("C05:loop:" + sig, "when a timer fires depends on other timers (loop level): " + msg, pth))
+        for d, pth in sub.divergences:
+            res.divergences.append(("loop level: " + d, pth))
+        res.extra["loop_level_cases"] = sub.evaluations
     return res
 
 
@@ -358,6 +374,9 @@ def search(tier, seed, proof):
 
 
 def replay(path):
+    if "# loop-level case" in open(path).read():
+        from . import c04
+        return c04.replay(path)
     ops = [l.strip() for l in open(path) if l.strip() and not l.startswith("#")]
     ok, log = build()
     if not ok:
